@@ -14,7 +14,9 @@ from vlib.common import Run, rng_for
 PROP = "C11"
 RULE = ("sim case = (timeout in {0,1,2,3,30,3600}, 1-3 workers, per-worker heartbeat pattern: healthy with gap <= timeout/2, "
         "adversarial gap up to timeout-epsilon, hung from t0 reacting to ABRT by dying or ignoring it; optional worker "
-        "deaths / TTIN; SIGCHLD schedule); live case = (worker class, hang kind or healthy pattern incl. idle on a listener inherited in "
+        "deaths / TTIN; SIGCHLD schedule), family master-pause = (the master alone does not run for 0.6 x timeout .. 45 s, once or twice; "
+        "one worker hangs after / before / during that), family bystanders = (2-4 workers, one hangs at any table position, the "
+        "others healthy, nothing else); live case = (worker class, hang kind or healthy pattern incl. idle on a listener inherited in "
         "blocking mode through LISTEN_FDS or fd://N, timeout); distinct = "
         "sha1(case)+schedule; non-trivial = at least one hung worker or an adversarial healthy pattern")
 
@@ -64,6 +66,69 @@ def gen_scenario(rng):
             "spawn_policy": spawn_policy, "max_ticks": int(end * 3) + 400, "nhung": nhung}
 
 
+def _healthy_policy(rng, T):
+    return {"hb_gap": round(T * rng.choice([0.1, 0.25, 0.5, 0.5, 0.9, 0.999]), 4)}
+
+
+def _hung_policy(rng, T, hang_at):
+    pol = {"hb_gap": round(T * rng.choice([0.25, 0.5]), 3), "hang_at": round(hang_at, 3)}
+    if rng.random() < 0.4:
+        pol["ignore_abrt"] = True
+    if rng.random() < 0.5:
+        pol["ignore_term"] = True
+    return pol
+
+
+def gen_pause_scenario(rng):
+    """The MASTER alone does not run for a while (stopped and continued, frozen, busy in a handler): one or two long steps of
+    virtual time between two iterations of its loop, while the workers go on beating.  One worker hangs - mostly after the
+    master runs again, sometimes before or while it is paused.  Nothing else happens."""
+    timeout = rng.choice([1, 2, 2, 3, 3, 3, 30])
+    T = timeout
+    workers = rng.randint(1, 3)
+    events = []
+    t = rng.choice([0.3, 1.2, 2.5, 4.1])
+    first = t
+    for _ in range(rng.choice([1, 1, 1, 2])):
+        d = round(rng.choice([0.6 * T, 1.5 * T, 3.0 * T, T + 5.5, 7.0, 12.0, 45.0]), 2)
+        events.append({"type": "master_pause", "at": round(t, 2), "duration": d})
+        t = t + d + rng.choice([0.4, 1.6, 3.3])
+    resume = events[-1]["at"] + events[-1]["duration"]
+    k = rng.random()
+    if k < 0.75:
+        hang = resume + rng.choice([0.2, 1.0, 2.7, T + 1.3])          # after the master runs again
+    elif k < 0.9:
+        hang = max(0.0, first - rng.choice([0.1, 0.9]))                # shortly before the pause
+    else:
+        hang = first + events[0]["duration"] * 0.5                      # while the master is paused
+    h = rng.randrange(workers)
+    spawn_policy = {str(i): (_hung_policy(rng, T, hang) if i == h else _healthy_policy(rng, T)) for i in range(workers)}
+    end = max(resume, hang) + 2 * T + 8
+    events.append({"type": "end", "at": round(end, 2)})
+    return {"family": "master-pause", "workers": workers, "timeout": timeout, "graceful_timeout": 2, "events": events,
+            "default_policy": {"hb_gap": round(T * 0.25, 3), "term_delay": 0.0},
+            "spawn_policy": spawn_policy, "max_ticks": int(end * 3) + 400, "nhung": 1, "hung_index": h}
+
+
+def gen_bystander_scenario(rng):
+    """2-4 workers, exactly one of them hangs (any position in the table, any way of hanging), every other worker is healthy
+    (any beat pattern) and so is every worker started later; no signal to the master, no other death."""
+    timeout = rng.choice([1, 2, 2, 3, 3, 30])
+    T = timeout
+    workers = rng.randint(2, 4)
+    h = rng.choice([workers - 1, workers - 1, rng.randrange(workers), rng.randrange(1, workers)])
+    hang = rng.choice([0.0, 0.4, 1.0, 2.6, 5.3])
+    spawn_policy = {str(i): (_hung_policy(rng, T, hang) if i == h else _healthy_policy(rng, T)) for i in range(workers)}
+    end = hang + 2 * T + 8
+    return {"family": "bystanders", "workers": workers, "timeout": timeout, "graceful_timeout": 2,
+            "events": [{"type": "end", "at": round(end, 2)}],
+            "default_policy": {"hb_gap": round(T * 0.25, 3), "term_delay": 0.0},
+            "spawn_policy": spawn_policy, "max_ticks": int(end * 3) + 400, "nhung": 1, "hung_index": h}
+
+
+RETIRING = ("TTOU", "HUP", "TERM", "INT", "QUIT")
+
+
 class Monitor:
     def __init__(self, sc):
         self.sc = sc
@@ -72,8 +137,62 @@ class Monitor:
         self.kill_at = {}
         self.false_kill_checks = 0
         self.not_quiescent = False
+        self.pauses = []                # [(from, to)] spans of virtual time in which the master did not run
+        self.stop_checks = 0
+        self.judged_after_pause = 0
+        self.bystanders_judged = 0
+
+    def install(self, k):
+        """Scripted event `master_pause`: the virtual clock moves on by `duration` while the master is inside its select()
+        (nothing of the master runs in between; the workers' scripted heartbeats follow the clock as always)."""
+        k.monitor_hooks.append(self.hook)
+        inner = k.fire_scripted
+
+        def fire_scripted(ev):
+            if ev["type"] != "master_pause":
+                return inner(ev)
+            start = k.now
+            k.now = start + ev["duration"]
+            self.pauses.append((start, k.now))
+            k.log.append((k.now, "master_paused", start, ev["duration"]))
+
+        k.fire_scripted = fire_scripted
+
+    def stretch(self, t_from, deadline):
+        """A deadline for something the master has to do, counted from t_from: a master that is not running cannot act - if
+        a pause touches the span, the deadline is two ticks after the master runs again."""
+        for a, b in sorted(self.pauses):
+            if a <= deadline + 1e-9 and b >= t_from - 1e-9:
+                deadline = max(deadline, b + 2.0)
+        return deadline
+
+    def hook_stop(self, k, pr, sig):
+        # Without TTOU / HUP / a stopping signal to the master the pool never has a surplus and nobody has to make room:
+        # the only signals a worker may get are those of the timeout scan.  A worker that is beating and is told to stop
+        # anyway is a healthy worker that gets killed and replaced.
+        if any(e[1] == "signal_to_master" and e[2] in RETIRING for e in k.log):
+            return
+        hang = pr.policy.get("hang_at")
+        if pr.state != "run" or (hang is not None and pr.born + hang <= k.now):
+            return
+        self.stop_checks += 1
+        name = {TERM: "TERM", int(signal.SIGQUIT): "QUIT", int(signal.SIGINT): "INT"}.get(sig, "other")
+        self.v.append(("healthy-worker-stopped-without-cause/" + name,
+                       "%s sent to pid %d (worker %d of %d, beating every %s s, timeout %s) although the master was never asked to "
+                       "retire a worker; hung worker of this history: %s" % (
+                           name, pr.pid, pr.spawn_index, self.sc["workers"], pr.policy.get("hb_gap"), self.sc["timeout"],
+                           self.sc.get("hung_index", "see spawn_policy"))))
 
     def hook(self, kind, k, **info):
+        if kind == "kill" and info["sig"] not in (ABRT, KILL, 0):
+            if k.halting_signal_at is None and k.boot_failure_reaped_at is None:
+                pr = k.procs.get(info["pid"])
+                if pr is not None and pr.state != "reaped":
+                    self.hook_stop(k, pr, info["sig"])
+            return
+        self.hook_scan(kind, k, **info)
+
+    def hook_scan(self, kind, k, **info):
         if kind != "kill" or info["sig"] not in (ABRT, KILL):
             return
         if k.halting_signal_at is not None or k.boot_failure_reaped_at is not None:
@@ -117,10 +236,12 @@ class Monitor:
                     continue
                 t_h = pr.born + hang
                 last_hb = pr.born + int((hang) / pr.policy["hb_gap"] + 1e-9) * pr.policy["hb_gap"]
-                deadline = last_hb + timeout + 2.0
+                deadline = self.stretch(last_hb, last_hb + timeout + 2.0)
                 died_before = pr.died is not None and pr.died <= deadline and pr.pid not in self.abrt_at
                 if died_before or pr.born + hang > k.now - timeout - 4:
                     continue        # left the stage for another reason / hung too late to judge
+                if any(b <= t_h for _, b in self.pauses):
+                    self.judged_after_pause += 1        # hung after the master had been paused and ran again
                 a = self.abrt_at.get(pr.pid)
                 if a is None or a > deadline + 1e-9:
                     v.append(("hung-worker-not-aborted-in-time",
@@ -130,9 +251,10 @@ class Monitor:
                     continue
                 if pr.policy.get("ignore_abrt"):
                     kk = self.kill_at.get(pr.pid)
-                    if pr.died is not None and pr.died <= a + 2.0 + 1e-9:
+                    kdl = self.stretch(a, a + 2.0)
+                    if pr.died is not None and pr.died <= kdl + 1e-9:
                         continue    # went away for another reason (e.g. it was also asked to TERM) before KILL was due
-                    if kk is None or kk > a + 2.0 + 1e-9:
+                    if kk is None or kk > kdl + 1e-9:
                         v.append(("abort-ignoring-worker-not-killed",
                                   "pid %d ignored ABRT sent at +%.2f: KILL %s" % (
                                       pr.pid, a - k.t0, "never sent" if kk is None else "at +%.2f" % (kk - k.t0))))
@@ -155,9 +277,29 @@ class Monitor:
             phantom = set(k.tracked) - set(p.pid for p in run)
             if not late and not phantom:
                 v.append(("pool-not-restored", "%d running (%d not signalled), target %d" % (len(run), len(eff), tgt)))
-        # the loop kept ticking
+        # one hung worker among healthy ones: the healthy ones are the same processes afterwards, one worker was started
+        if sc.get("family") == "bystanders" and timeout and not self.not_quiescent:
+            first = sorted(k.procs.values(), key=lambda p: p.spawn_index)[:sc["workers"]]
+            hung = [p for p in first if p.policy.get("hang_at") is not None]
+            others = [p for p in first if p.policy.get("hang_at") is None]
+            if len(hung) == 1 and hung[0].pid in self.abrt_at and hung[0].state != "run" and others:
+                self.bystanders_judged += 1
+                gone = [p for p in others if p.state != "run" or p.sent]
+                if gone:
+                    v.append(("healthy-bystander-of-a-hung-worker-replaced",
+                              "worker %d of %d hung and was aborted; of the healthy workers, %s" % (
+                                  sc["hung_index"], sc["workers"], ", ".join(
+                                      "worker %d (beating every %s s) was sent %s and is %s" % (
+                                          p.spawn_index, p.policy.get("hb_gap"), [s2 for _, s2 in p.sent] or "nothing",
+                                          "still running" if p.state == "run" else "gone") for p in gone))))
+                nforks = len([e for e in k.log if e[1] == "fork"])
+                if nforks > sc["workers"] + 1:
+                    v.append(("more-than-one-worker-started-for-one-hung-worker",
+                              "%d workers, worker %d hung and nothing else happened: %d workers were started afterwards" % (
+                                  sc["workers"], sc["hung_index"], nforks - sc["workers"])))
+        # the loop kept ticking (a span in which the scenario paused the master is not the loop's doing)
         sel = [e[0] for e in k.log if e[1] == "select"]
-        gaps = [b - a for a, b in zip(sel, sel[1:])]
+        gaps = [b - a - sum(min(b, q) - max(a, p2) for p2, q in self.pauses if p2 < b and q > a) for a, b in zip(sel, sel[1:])]
         if gaps and max(gaps) > 1.5:
             v.append(("master-loop-stalled", "%.2f virtual seconds between two loop ticks" % max(gaps)))
         return v
@@ -169,7 +311,7 @@ def run_one(run, e3, sc, schedule):
 
     def init(self, scenario, sch):
         orig(self, scenario, sch)
-        self.monitor_hooks.append(mon.hook)
+        mon.install(self)
 
     e3.SimKernel.__init__ = init
     try:
@@ -187,6 +329,16 @@ def run_one(run, e3, sc, schedule):
         run.count("sim_pool_restored_checks")
     if sc["timeout"] == 0:
         run.count("sim_timeout_disabled_histories")
+    if mon.pauses:
+        run.count("sim_master_pause_histories")
+        if max(b - a for a, b in mon.pauses) > max(sc["timeout"], 5):
+            run.count("sim_master_pauses_longer_than_timeout_and_5s")
+    if mon.judged_after_pause:
+        run.count("sim_hang_after_master_pause_judged", mon.judged_after_pause)
+    if mon.bystanders_judged:
+        run.count("sim_bystander_histories_judged")
+        if sc["hung_index"] > 0:
+            run.count("sim_bystander_hung_worker_not_the_oldest")
     if any(0.89 < (p.get("hb_gap", 0) / (sc["timeout"] or 2)) < 1 for p in sc["spawn_policy"].values()):
         run.count("sim_adversarial_healthy_patterns")
     return v, k
@@ -212,6 +364,23 @@ def shard(sh):
             if i < 1:
                 run.sample({"scenario": {k2: v2 for k2, v2 in sc.items()},
                             "kills": [e for e in k.log if e[1] == "kill"][:6]})
+        # two further families: the master itself is paused for longer than the timeout and runs again; exactly one worker
+        # hangs among healthy ones
+        for fam, gen in (("master-pause", gen_pause_scenario), ("bystanders", gen_bystander_scenario)):
+            rng = rng_for(sh["seed"], "c11", fam, sh["sub"])
+            for i in range(sh.get("n_family", 0)):
+                if run.enough():
+                    break
+                sc = gen(rng)
+                for j in range(2):
+                    parts = [sh["seed"], "c11sched", fam, sh["sub"], i, j]
+                    p = rng.choice([0.1, 0.5, 1.0])
+                    v, k = run_one(run, e3, sc, e3.RandomSchedule(rng_for(*parts), p))
+                    run.case((common.sha12(sc), j))
+                    for mech, summary in v:
+                        run.violation(mech, summary, {"scenario": sc, "schedule": {"parts": parts, "p": p}})
+                if i < 1 and sh["sub"] == 0:
+                    run.sample({"scenario": sc, "kills": [e for e in k.log if e[1] in ("kill", "master_paused", "fork")][:10]})
     elif sh["kind"] == "live":
         from checks import c11_live
         c11_live.shard(run, sh)
@@ -221,9 +390,11 @@ def shard(sh):
 def main(tier, seed):
     run = Run(PROP, tier, seed, "exploration", RULE)
     run.require("sim_histories", "sim_kill_checks", "sim_aborts_observed", "sim_kills_after_ignored_abort",
-                "sim_timeout_disabled_histories", "sim_adversarial_healthy_patterns", "sim_pool_restored_checks")
+                "sim_timeout_disabled_histories", "sim_adversarial_healthy_patterns", "sim_pool_restored_checks",
+                "sim_master_pause_histories", "sim_master_pauses_longer_than_timeout_and_5s", "sim_hang_after_master_pause_judged",
+                "sim_bystander_histories_judged", "sim_bystander_hung_worker_not_the_oldest")
     q = tier == "quick"
-    shards = [{"kind": "sim", "n": 150 if q else 3000, "schedules": 4, "sub": i, "seed": seed, "tier": tier}
+    shards = [{"kind": "sim", "n": 150 if q else 3000, "n_family": 40 if q else 600, "schedules": 4, "sub": i, "seed": seed, "tier": tier}
               for i in range(16 if q else 32)]
     live = []
     try:
@@ -235,6 +406,10 @@ def main(tier, seed):
         "simulated part: heartbeats are scripted on the virtual clock; 1 tick = the master's 1 s select; bounds: ABRT within timeout + 2 ticks "
         "of the last heartbeat, KILL within 2 ticks of an ignored ABRT",
         "a heartbeat gap strictly below the timeout is healthy whatever the scan phase",
+        "master pause (simulated): only the master stops (SIGSTOP / frozen / busy in a handler), the workers go on beating; the "
+        "virtual clock steps by the pause inside the master's select(); every bound on something the master has to do that is "
+        "touched by a pause is two ticks after the master runs again",
+        "no TTOU / HUP / stopping signal in a history => no worker is ever told to stop: the pool never has a surplus",
         "live part, inherited listener: the launcher process (which becomes the master) creates the listening socket in blocking mode "
         "and hands it over as descriptor 3 with LISTEN_FDS / LISTEN_PID, or as `--bind fd://7`; judged only when the master and every "
         "worker hold that very socket (inode) and a request is answered on it; idle = 4 x timeout, as in healthy-idle",
